@@ -44,4 +44,10 @@ struct VolumeLocation { int catalog_location_; unsigned long start_sector_; unsi
 /* track.h: struct SectorAddress { unsigned char cylinder, head, record; }; struct Sector { SectorAddress address; std::vector<unsigned char> data; ... } */
 struct SectorAddress { unsigned char cylinder, head, record; };
 struct TrackSector { struct SectorAddress address; size_t data_n; };      /* data_n = data.size() */
+
+/* img_hfe.cc: struct PicTrack { unsigned short offset_, track_len_; };  the flux adapters (img_hfe.cc, img_hxcmfm.cc):
+   class DataAccessAdapter { Geometry geom_; unsigned int side_; std::vector<Track::Sector> sectors_; } */
+struct PicTrack { unsigned short offset_, track_len_; };
+struct FluxSector { struct SectorAddress address; size_t data_n; byte data[256]; };     /* data_n = data.size() */
+struct FluxAdapter { struct Geometry geom_; unsigned int side_; size_t sectors_n; struct FluxSector *sectors_; };
 #endif
